@@ -169,9 +169,12 @@ static void exec(void)
   dump_full(&before_b, base, mc_work, 0);
   dump_full(&before_o, over, mc_work, 0);
 
+  /* a merge is a function of its two inputs: an earlier merge of the same object (its result still alive) must not matter */
+  econf_file *pre = NULL;
+  if (econf_mergeFiles(&pre, base, base) != ECONF_SUCCESS) pre = NULL;
   econf_file *res = NULL;
   econf_err rc = econf_mergeFiles(&res, base, over);
-  mc_st->libcalls++;
+  mc_st->libcalls += 2;
   if (rc != ECONF_SUCCESS || !res) {
     mc_fail(sig.s, "econf_mergeFiles returned %d / result %p for %s", (int)rc, (void *)res, sig.s);
   } else {
@@ -215,6 +218,15 @@ static void exec(void)
       uint64_t h = 0;
       for (int i = 0; i < ngot; i++) { h = mc_hash_str(h, got[i].g); h = mc_hash_str(h, got[i].k); h = mc_hash_str(h, got[i].v); }
       mc_outcome(h);
+      /* the result owns everything it shows: releasing the earlier result must not change it */
+      if (pre && !mc_case_failed) {
+        sbuf l1 = {0}, l2 = {0}; obs_cfg o2; sbuf e2 = {0};
+        obs_print(&l1, &o);
+        econf_freeFile(pre); pre = NULL;
+        if (obs_take(res, &o2, &e2) != 0) mc_fail(sig.s, "result cannot be listed after an earlier merge result was released: %s; %s", e2.s, sig.s);
+        else { obs_print(&l2, &o2); if (strcmp(l1.s ? l1.s : "", l2.s ? l2.s : "")) mc_fail(sig.s, "merge result changed when an earlier merge result of the same base was released: %s -> %s; %s", l1.s, l2.s, sig.s); }
+        obs_free(&o2); sb_free(&e2); sb_free(&l1); sb_free(&l2);
+      }
     }
     sb_free(&err);
     obs_free(&o);
@@ -231,6 +243,7 @@ static void exec(void)
     if (collide || !S[0].expressible || !S[1].expressible || nb == 0 || no == 0) mc_st->nontrivial++;
   }
   if (mc_want_sample()) mc_sample("%s => %s", sig.s, msg.s ? msg.s : "");
+  if (pre) econf_freeFile(pre);
   if (res) econf_freeFile(res);
   econf_freeFile(base);
   econf_freeFile(over);
